@@ -204,6 +204,49 @@ def n7_for_enumerate(src, log):
         log.append(f"N7 for ({pat[0]}, {pat[1]}) in {recv}.iter().enumerate() -> index loop")
 
 
+def n20_for_enumerate_zip(src, log):
+    """for ((I, X), Y) in A.iter().enumerate().zip(B.iter()) { BODY }
+         ->  let n = vx_min_usize(A.len(), B.len()); let mut k = 0; while k < n { let I = k; k = k + 1; let X = &A[I]; let Y = &B[I]; BODY }
+    (std: zip stops at the shorter iterator; enumerate counts from 0; the counter moves at the head so that `continue` works)"""
+    while True:
+        toks = lex(src)
+        hit = None
+        for i, t in enumerate(toks):
+            if not (t.text == "for" and t.kind == "ident" and i + 2 < len(toks) and toks[i + 1].text == "(" and toks[i + 2].text == "("):
+                continue
+            pc = toks[i + 1].mate
+            outer = _split_args(src, toks, i + 1)
+            inner = _split_args(src, toks, i + 2)
+            if len(outer) != 2 or len(inner) != 2 or toks[pc + 1].text != "in":
+                continue
+            k = pc + 2
+            d = t.depth
+            while k < len(toks) and not (toks[k].text == "{" and toks[k].depth == d):
+                if toks[k].kind == "open":
+                    k = toks[k].mate
+                k += 1
+            body = k
+            # .. A .iter().enumerate().zip( B .iter() ) {
+            if toks[body - 1].text != ")" or [toks[x].text for x in range(body - 5, body - 1)] != [".", "iter", "(", ")"]:
+                continue
+            zo = toks[body - 1].mate
+            if [toks[x].text for x in range(zo - 9, zo + 1)] != [".", "iter", "(", ")", ".", "enumerate", "(", ")", ".", "zip"][0:9] + ["("] and \
+               [toks[x].text for x in range(zo - 10, zo + 1)] != [".", "iter", "(", ")", ".", "enumerate", "(", ")", ".", "zip", "("]:
+                continue
+            a = src[toks[pc + 2].start:toks[zo - 11].end]
+            b = src[toks[zo + 1].start:toks[body - 6].end]
+            hit = (i, body, inner[0].strip(), inner[1].strip(), outer[1].strip(), a, b)
+            break
+        if hit is None:
+            return src
+        i, body, I, X, Y, a, b = hit
+        # a `while` with the counter advanced at the head of the body: `continue` in BODY keeps its meaning (next element)
+        rep = (f"let __vx_n_{I} = vx_min_usize({a}.len(), {b}.len()); let mut __vx_{I}: usize = 0; "
+               f"while __vx_{I} < __vx_n_{I} {{ let {I} = __vx_{I}; __vx_{I} = __vx_{I} + 1; let {X} = &{a}[{I}]; let {Y} = &{b}[{I}];")
+        src = src[:toks[i].start] + rep + src[toks[body].end:]
+        log.append(f"N20 for (({I}, {X}), {Y}) in {a}.iter().enumerate().zip({b}.iter()) -> index loop over the shorter length")
+
+
 def find_closures(src, toks):
     """Yield (bar0, bar1, body_start_tok, body_end_tok_inclusive, has_block) for every closure."""
     res = []
@@ -1316,6 +1359,8 @@ def normalise(src, rules, log, ctx=None):
             src = n7_sum(src, log)
         elif r == "n10":
             src = n10_entry_append(src, log)
+        elif r == "n20":
+            src = n20_for_enumerate_zip(src, log)
         elif r == "n7forenum":
             src = n7_for_enumerate(src, log)
         elif r == "n7res":
